@@ -230,7 +230,12 @@ def proc_inc(ctx, n, base, chain):
     if xp is not None:
         ctx.causes.append('xpointer-text' if parse == 'text' else 'xpointer-unsupported'); return []
     if href is None: ctx.causes.append('no-href'); return []
-    if href == '': ctx.causes.append('empty-href'); return []
+    if href == '':
+        # same-document reference without xpointer: for parse=xml every reading makes it an error (fatal by 3.1, or an inclusion loop);
+        # with a fallback, or as parse=text, implementations / editions differ -> unspecified
+        if parse == 'xml' and not fbs: ctx.causes.append('empty-href')
+        else: ctx.unspec.append('empty-href-text-or-fallback')
+        return []
     if '#' in href: ctx.causes.append('href-fragment'); return []
     target = ctx.res(href, ibase)
     if '../' in href:
